@@ -1,6 +1,7 @@
 /-
 C12, idempotence: merging the right operand again into the result of a merge changes nothing
-(accepted repeat-free operands whose keyed lists carry scalar key fields).
+(accepted repeat-free operands whose keyed lists carry canonical key fields: `keysCanon`, implied by
+`keysScalar` and by `canon`).
 -/
 import SMD.Proofs.MergeFieldSetLaws
 set_option linter.unusedSimpArgs false
